@@ -613,6 +613,24 @@ func gen(o hreg.Opts, w *bufio.Writer) error {
 		c = regen(rng, st, c)
 		emit("minimal", c)
 	}
+	// is_valid_genesis_state at its thresholds: exactly / one below / one above MIN_GENESIS_ACTIVE_VALIDATOR_COUNT
+	// active validators, with a genesis time exactly at / just below MIN_GENESIS_TIME
+	for _, n := range []int{9, 16} {
+		for _, delta := range []int{-1, 0, 1} {
+			for _, tdelta := range []int{-1, 0} {
+				spec := cloneSpec(configs.Minimal)
+				spec.MIN_GENESIS_ACTIVE_VALIDATOR_COUNT = view64(uint64(n + delta))
+				c := genCase(rng, st, "eth1", spec, n, true)
+				for _, d := range c.deps {
+					d.amount = uint64(spec.MAX_EFFECTIVE_BALANCE)
+				}
+				c = regen(rng, st, c)
+				c.label = fmt.Sprintf("threshold-active%+d-time%+d", delta, tdelta)
+				c.time = uint64(int64(spec.MIN_GENESIS_TIME) - int64(spec.GENESIS_DELAY) + int64(tdelta))
+				emit("custom", c)
+			}
+		}
+	}
 	total := o.Pick(110, 1500)
 	for i := 0; i < total; i++ {
 		var p preset
